@@ -5,7 +5,7 @@ import math
 from ..loader import AnalysisError, NotConst, attr_path, src, walk_no_nested_defs, norm_stmt, call_name
 from ..symx import SymX, classify, show, C, TRUE, FALSE, simp, is_const, is_term
 from ..nf import SELF_NEXT, SF
-from . import kernels as K
+from . import kernels as K, shared
 
 EXPLANATION = (
     "Decides the selection rule, not float tie behaviour: the two strategy extractors are ARGSET_MAX / ARGSET_MIN "
@@ -110,7 +110,7 @@ def r2_precision(ctx, chk, rule="C04.2"):
         chk.violation(rule, tc["where"], "self.threshold is `%s`, not the constructor's threshold" % tc["thr_store"],
                       expected="self.threshold = threshold", found=tc["thr_store"], construct="Solver.__init__ threshold store")
     # the precision / threshold / state list of a solver are fixed at construction
-    for fld in ("floor", "threshold", "state_list"):
+    for fld in ("floor", "threshold", shared.solver_names(ctx)["field"]):
         from .C01 import field_writers
         fw = [w for w in field_writers(ctx, fld) if len(w) == 2 and isinstance(w[1], (ast.Assign, ast.AugAssign, ast.AnnAssign))]
         ws = [(g, n) for g, n in fw if attr_path(n.targets[0] if isinstance(n, ast.Assign) else n.target) == "self." + fld
@@ -136,8 +136,8 @@ def _call_sites_pass_floor(ctx, chk, rule, q, meths):
             ps = [p for p in callee[0].params if p != "self"] if callee else ["state_list", "floor"]
             amap = dict(zip(ps, [src(a) for a in c.args]))
             amap.update({k.arg: src(k.value) for k in c.keywords})
-            if amap.get(ps[1]) == "self.floor" and amap.get(ps[0]) == "self.state_list":
-                chk.ok(rule, f.where(c), "%s(self.state_list, self.floor)" % c.func.attr)
+            if amap.get(ps[1]) == "self.floor" and amap.get(ps[0]) == "self." + shared.solver_names(ctx)["field"]:
+                chk.ok(rule, f.where(c), "%s(self.%s, self.floor)" % (c.func.attr, shared.solver_names(ctx)["field"]))
             else:
                 chk.violation(rule, f.where(c), "%s is called with (%s)" % (c.func.attr, ", ".join(args)),
                               expected="(self.state_list, self.floor)", found=", ".join(args),
@@ -161,7 +161,7 @@ def role_table(ctx, chk, rule, q, best, worst):
         return
     L = sx.loops[ret[1]]
     v = ret[2]
-    slist = ("attr", ("v", "self"), "state_list")
+    slist = shared.SLIST(ctx)
     init = L.init.get(v)
     want_init = ("repeat", ("list", (C(None),)), ("call", "len", (slist,), ()))
     if init not in (want_init, ("repeat", want_init[2], want_init[1])):
